@@ -283,6 +283,24 @@ func Main(name string, args []string, setup func(fs *flag.FlagSet), h Handler) i
 	return parent(name, args, *in, *outp, *jobs)
 }
 
+// memLimit: resident memory a worker may use before its scenario is declared a memory exhaustion (8 GB; VERIF_MEMLIMIT_MB)
+var memLimit = func() int64 {
+	if v, err := strconv.Atoi(os.Getenv("VERIF_MEMLIMIT_MB")); err == nil && v > 0 {
+		return int64(v) << 20
+	}
+	return 8 << 30
+}()
+
+func rssBytes() int64 {
+	b, err := os.ReadFile("/proc/self/statm")
+	if err != nil {
+		return 0
+	}
+	var size, rss int64
+	fmt.Sscanf(string(b), "%d %d", &size, &rss)
+	return rss * int64(os.Getpagesize())
+}
+
 func child(in, outp, shard string, from int, prog string, tmo time.Duration, limit, stride, perproc int, h Handler) int {
 	var si, sn int
 	fmt.Sscanf(shard, "%d/%d", &si, &sn)
@@ -317,6 +335,17 @@ func child(in, outp, shard string, from int, prog string, tmo time.Duration, lim
 			mu.Lock()
 			c, st, ln := cur, curStart, curLine
 			mu.Unlock()
+			if c >= 0 && rssBytes() > memLimit {
+				// the render of this scenario exhausts the memory: stop before the kernel kills something else
+				buf := make([]byte, 4<<20)
+				buf = buf[:runtime.Stack(buf, true)]
+				site := LoopSite(buf)
+				out.Disagree("memory:"+site, fmt.Sprintf("scenario %d uses more than %d MB of memory (running: %s)", c, memLimit>>20, site), json.RawMessage(ln))
+				out.Count("timeouts")
+				out.summary()
+				of.Sync()
+				os.Exit(3)
+			}
 			if c >= 0 && time.Since(st) > tmo {
 				// name the hang: the recursing function, or the innermost function of the code under test that stays on the
 				// stack between two dumps taken half a second apart (the loop that does not return)
